@@ -21,7 +21,7 @@ fn observe(p: &Package) -> Value {
 
 fn written(p: &Package) -> Vec<u8> {
     let mut b = vec![];
-    p.write(&mut b).expect("write");
+    p.write(&mut Plain(&mut b)).expect("write");
     b
 }
 
